@@ -153,7 +153,7 @@ def targeted_case(rnd, kind, ntok, gap, wrap, indent, nprefix, start, split, chu
     elif wrap == 'call':
         e = 'foo( 1, ' + e + ' )'
     pre, post = KINDS[kind]
-    line = indent + pre + e + post
+    line = indent + pre + e + post + rnd.choice(['', '', ' ', '   ', '\t', ' \t '])      # trailing white space is allowed on every line
     prefix = [rnd.choice(PREFIX_POOL) for _ in range(nprefix)]
     lines = list(prefix)
     if kind == 'elif':
@@ -162,7 +162,8 @@ def targeted_case(rnd, kind, ntok, gap, wrap, indent, nprefix, start, split, chu
     phys = [line]
     if split:
         # split the faulty line at up to 3 inter-token gaps of the expression
-        words = line.split(' ')
+        trail = line[len(line.rstrip()):]
+        words = line.rstrip().split(' ')
         if len(words) > 2:
             cuts = sorted(set(rnd.randrange(1, len(words)) for _ in range(rnd.randint(1, 3))))
             phys, prev = [], 0
@@ -170,7 +171,7 @@ def targeted_case(rnd, kind, ntok, gap, wrap, indent, nprefix, start, split, chu
                 seg = ' '.join(words[prev:c])
                 phys.append(seg)
                 prev = c
-            phys = [p + (' \\' if i < len(phys) - 1 else '') for i, p in enumerate(phys)]
+            phys = [p + (' \\' if i < len(phys) - 1 else trail) for i, p in enumerate(phys)]
             if rnd.random() < 0.4:
                 phys.insert(1, '# comment inside the continuation')
     lines.extend(phys)
